@@ -33,8 +33,27 @@ using namespace std;
 // For g++ libstdc++ parsing see num_get<chartype,initer>::_M_extract_int in
 // include/bits/locale_facets.tcc.
 
+static istream &
+__gmp_extract_body (istream &i, mpz_ptr z);
+
 istream &
 operator>> (istream &i, mpz_ptr z)
+{
+  /* Parse with the exception mask off: the characters are fetched with
+     get(), which sets failbit together with eofbit when a valid number is the
+     last thing in the stream; with exceptions (failbit) that threw before the
+     value was assigned.  Restoring the mask throws if the final state calls
+     for it, as a failed extraction should.  */
+  ios::iostate ex = i.exceptions ();
+  i.exceptions (ios::goodbit);
+  try { __gmp_extract_body (i, z); }
+  catch (...) { i.exceptions (ex); throw; }
+  i.exceptions (ex);
+  return i;
+}
+
+static istream &
+__gmp_extract_body (istream &i, mpz_ptr z)
 {
   char c = 0;
   i.get(c); // start reading
